@@ -19,10 +19,10 @@ SPECS = ["FuncsMC", "FuncsTrace"]
 PKGS = ["./cmd/functions"]
 
 TRACE_BATCH = 20000
-# classes of the error tokens 1..6 (ErrTokClass of spec/Funcs.tla; the driver checks its own copy
+# classes of the error tokens 1..8 (ErrTokClass of spec/Funcs.tla; the driver checks its own copy
 # against the specification in the bind vector)
 ERR_TOK_CLASS = ["plain", "plain", "wraps_call_shape_error", "call_error_not_reported", "call_error_reported",
-                 "typed_nil"]
+                 "typed_nil", "typed_nil_slice", "typed_nil_map"]
 
 
 # ---------------------------------------------------------------------------- helpers
